@@ -1,3 +1,4 @@
+import SaVerif.Gen.MergeCfg
 /-
 M-ORM/merge: `Session.merge()` of a detached / transient source object with partially
 loaded column attributes into a Session that may or may not already hold the
@@ -21,11 +22,25 @@ ColumnProperty.merge: key in source_dict → impl.set on     `copyAttr` (current
 not load: merged_state._commit_all (no history)             `commitAll`
 Session.is_modified / attribute history                    `Obj.netChange`
 
-Relationship cascades of merge are exercised by the harness's graph stream and its
-oracle only; this model is the column-attribute core.  autoflush is off, and the
-harness never merges an identity that is pending in the Session.
+Session.merge (public entry point):                         `mergeAf`
+  if load: self._autoflush()                                 `afGuard` (regenerated flag
+  with self.no_autoflush: return self._merge(...)            `Gen.MergeCfg.mergeAutoflushGuardIsLoad`)
+Session._autoflush: `if self.autoflush: self.flush()`        the `af` parameter, `flushSt`
+Session.get: identity-map hit -> no SQL, no flush;           `loadAf`
+  miss -> ORM execute -> `_autoflush()` -> SELECT
+Session.delete(persistent obj): `_deleted[state] = obj`,     `St.del`, `Op.del`
+  the instance stays in the identity map until the flush
+Session.flush: INSERT pending, UPDATE net changes, DELETE    `flushSt` (deleted-marked instance:
+  deleted-marked (instance leaves the identity map)            row removed, instance removed)
 
-Import-free, total, executable.
+Relationship cascades of merge are exercised by the harness's graph stream and its
+oracle only; this model is the column-attribute core.  With autoflush off the harness
+never merges an identity that is pending in the Session (documented behaviour: a second
+pending instance); with autoflush on it does.  The harness never flushes two modified
+instances of one row, nor operates on an identity while an instance of the same primary
+key under ANOTHER token is marked deleted (`otherDel`: such ops are skipped on both sides).
+
+Imports only the regenerated `SaVerif.Gen.MergeCfg`; total, executable.
 -/
 namespace SaVerif.Merge
 
@@ -54,9 +69,10 @@ structure St where
   db : Nat → Option (Int × Int)
   objs : Nat → Nat → Option Obj      -- identity map: (pk, identity token) ↦ instance
   new : Nat → Option Obj             -- pending instances created by merge
-  sql : Nat                          -- statements emitted so far
+  del : Nat → Nat → Bool             -- Session.delete() pending for the instance (pk, token)
+  sql : Nat                          -- SELECT statements emitted so far
 
-def St.init : St := ⟨fun _ => none, fun _ _ => none, fun _ => none, 0⟩
+def St.init : St := ⟨fun _ => none, fun _ _ => none, fun _ => none, fun _ _ => false, 0⟩
 
 /-- identity-map update at one key -/
 def putObj (objs : Nat → Nat → Option Obj) (k t : Nat) (o : Obj) : Nat → Nat → Option Obj :=
@@ -144,11 +160,12 @@ def merge (load : Bool) (st : St) (s : Src) : St × Out :=
 /-! ### the rest of a history (to reach interesting states) -/
 
 inductive Op
-  | insert (k : Nat) (a b : Int)        -- row committed by someone else before the session looks
+  | insert (k : Nat) (a b : Int)        -- row written by someone else before the session looks
   | load (k t : Nat)                    -- session.get(T, k, identity_token=t)
   | set (k t : Nat) (which : Bool) (v : Int)   -- which = false: a, true: b
   | merge (load : Bool) (s : Src)
-  | flush                               -- writes pending + net changes, clears history
+  | del (k t : Nat)                     -- session.delete(identity-map instance (k, t)), pending
+  | flush                               -- writes pending + net changes + deletes, clears history
 deriving Repr
 
 def flushObj (o : Obj) : Obj := ⟨⟨o.a.cur, none⟩, ⟨o.b.cur, none⟩⟩
@@ -174,48 +191,100 @@ def rowFlush (st : St) (k : Nat) : Option (Int × Int) :=
 
 def anyObj (st : St) (k : Nat) : Bool := tokens.any (fun t => (st.objs k t).isSome)
 
-def step (n : Nat) (st : St) : Op → St × Out
+/-- some instance of primary key `k` is marked deleted -/
+def anyDel (st : St) (k : Nat) : Bool := tokens.any (fun t => st.del k t)
+
+/-- an instance of primary key `k` under a token other than `t` is marked deleted -/
+def otherDel (st : St) (k t : Nat) : Bool := tokens.any (fun u => u != t && st.del k u)
+
+/-- (k, t) is the only instance of primary key `k` the Session tracks -/
+def onlyInstance (st : St) (k t : Nat) : Bool :=
+  (st.new k).isNone && tokens.all (fun u => u == t || (st.objs k u).isNone)
+
+/-- `Session.flush()` over the identities `< n`: pending instances are INSERTed and become
+    persistent under token None, net changes are UPDATEd, deleted-marked instances are
+    DELETEd (row gone, instance leaves the identity map), history is cleared. -/
+def flushSt (n : Nat) (st : St) : St :=
+  { db := fun k => if k < n then
+                     (match st.new k with
+                      | some o => some ((o.a.cur).getD 0, (o.b.cur).getD 0)
+                      | none => if anyDel st k then none else rowFlush st k)
+                   else st.db k,
+    objs := fun k t => if k < n then
+                         (match st.new k, t with
+                          | some o, 0 => some (flushObj o)
+                          | _, _ => if st.del k t then none else (st.objs k t).map flushObj)
+                       else st.objs k t,
+    new := fun k => if k < n then none else st.new k,
+    del := fun k t => if k < n then false else st.del k t,
+    sql := st.sql }
+
+/-- the condition under which `Session.merge` calls `self._autoflush()`, beyond `load`:
+    none when the guard is exactly `if load:` (regenerated flag true); for any other shape
+    the model takes the weaker reading "only when the identity is not in the identity map" -/
+def afGuard (st : St) (s : Src) : Bool :=
+  SaVerif.Gen.MergeCfg.mergeAutoflushGuardIsLoad || (st.objs s.pk s.tok).isNone
+
+/-- `Session.merge(src, load=load)` of a Session created with `autoflush=af`:
+    `if load: self._autoflush()` then `_merge` under `no_autoflush` -/
+def mergeAf (af : Bool) (n : Nat) (load : Bool) (st : St) (s : Src) : St × Out :=
+  if af && load && afGuard st s then merge load (flushSt n st) s else merge load st s
+
+/-- `Session.get(T, k, identity_token=t)`: identity-map hit returns at once; a miss runs a
+    SELECT through the ORM, which autoflushes first.  The instance found in the identity
+    map after the flush (a just-flushed pending one) is returned as it is. -/
+def loadAf (af : Bool) (n : Nat) (st : St) (k t : Nat) : St :=
+  match st.objs k t with
+  | some _ => st
+  | none =>
+    let st1 := if af then flushSt n st else st
+    match st1.objs k t, st1.db k with
+    | none, some (va, vb) =>
+      { st1 with objs := putObj st1.objs k t ⟨loaded va, loaded vb⟩, sql := st1.sql + 1 }
+    | _, _ => { st1 with sql := st1.sql + 1 }
+
+def step (af : Bool) (n : Nat) (st : St) : Op → St × Out
   | .insert k a b =>
     match st.db k, anyObj st k, st.new k with
     | none, false, none => ({ st with db := fun j => if j = k then some (a, b) else st.db j }, .skip)
     | _, _, _ => (st, .skip)
   | .load k t =>
-    match st.new k, st.objs k t, st.db k with
-    | none, none, some (va, vb) =>
-      ({ st with objs := putObj st.objs k t ⟨loaded va, loaded vb⟩, sql := st.sql + 1 }, .skip)
-    | _, _, _ => (st, .skip)
+    -- harness: not while another token's instance is doomed; with autoflush off not while pending
+    if otherDel st k t || (!af && (st.new k).isSome) then (st, .skip)
+    else (loadAf af n st k t, .skip)
   | .set k t w v =>
     match st.objs k t with
     | some o =>
       let o' : Obj := if w then ⟨o.a, setAttr o.b v⟩ else ⟨setAttr o.a v, o.b⟩
       ({ st with objs := putObj st.objs k t o' }, .skip)
     | none => (st, .skip)
-  | .merge l s => merge l st s
-  | .flush =>
-    ({ db := fun k => if k < n then
-                        (match st.new k with
-                         | some o => some ((o.a.cur).getD 0, (o.b.cur).getD 0)
-                         | none => rowFlush st k)
-                      else st.db k,
-       objs := fun k t => if k < n then
-                            (match st.new k, t with
-                             | some o, 0 => some (flushObj o)
-                             | _, _ => (st.objs k t).map flushObj)
-                          else st.objs k t,
-       new := fun k => if k < n then none else st.new k,
-       sql := st.sql }, .skip)
+  | .merge l s =>
+    if otherDel st s.pk s.tok then (st, .skip) else mergeAf af n l st s
+  | .del k t =>
+    if (st.objs k t).isSome && onlyInstance st k t then
+      ({ st with del := fun j u => if j = k ∧ u = t then true else st.del j u }, .skip)
+    else (st, .skip)
+  | .flush => (flushSt n st, .skip)
 
-def run (n : Nat) (st : St) : List Op → St
+def run (af : Bool) (n : Nat) (st : St) : List Op → St
   | [] => st
-  | o :: os => run n (step n st o).1 os
+  | o :: os => run af n (step af n st o).1 os
 
-def outs (n : Nat) (st : St) : List Op → List (Out × Nat)
+/-- is the instance a merge returned marked deleted in the state after it -/
+def resultDeleted (st' : St) : Op → Out → Bool
+  | .merge _ s, .merged false t _ _ _ => st'.del s.pk t
+  | _, _ => false
+
+/-- per op: result, number of SELECTs, result-marked-deleted -/
+def outs (af : Bool) (n : Nat) (st : St) : List Op → List (Out × Nat × Bool)
   | [] => []
-  | o :: os => ((step n st o).2, (step n st o).1.sql - st.sql) :: outs n (step n st o).1 os
+  | o :: os =>
+    ((step af n st o).2, (step af n st o).1.sql - st.sql, resultDeleted (step af n st o).1 o (step af n st o).2)
+      :: outs af n (step af n st o).1 os
 
 def opOk (n : Nat) : Op → Bool
   | .insert k _ _ => k < n
-  | .load k t | .set k t _ _ => k < n && t < 3
+  | .load k t | .set k t _ _ | .del k t => k < n && t < 3
   | .merge _ s => s.pk < n && s.tok < 3 && (s.persistent || s.tok == 0)
   | .flush => true
 
